@@ -545,6 +545,10 @@ def family(tier):
     add('idents_caps', [Packet('Root', [F('basic', 'K', typ='u8'), F('match', 'P', key='K', pairs=[([1], 'PA'), ([2], 'NewOrderV2')])], root=True),
                         Packet('PA', [F('basic', 'A', typ='u8')]), Packet('NewOrderV2', [F('basic', 'B', typ='u8')])], opts(),
         note='all-caps and digit-suffixed packet names')
+    add('inline_samename', [Packet('Root', [F('basic', 'K', typ='u8'), F('match', 'Body', key='K', pairs=[([1], 'TradeBatch'), ([2], 'QuoteBatch')])], root=True),
+                            Packet('TradeBatch', [F('inline', 'Item', repeat=True, fields=[F('basic', 'Qty', typ='u32'), F('basic', 'Px', typ='u64')]), F('basic', 'Tail', typ='u8')]),
+                            Packet('QuoteBatch', [F('inline', 'Item', repeat=True, fields=[F('dyn', 'Sym', spelling='string'), F('basic', 'Lvl', typ='u16')]), F('basic', 'Tail', typ='u8')])],
+        opts(), note='two packets declare inline objects with the same name and different layouts')
     # ---- combined programs ----
     for i, (le, sp, lp) in enumerate([(None, None, None), ('true', 'u8', 'u32'), ('true', 'u32', 'u8'), ('false', 'u64', 'u64')]):
         sub = F('inline', 'Sub', repeat=True, fields=[F('fixed', 'Id', n=4), F('fixed', 'Z', n=5, z=True), F('basic', 'Px', typ='f64')])
